@@ -14,7 +14,7 @@ func TestOne(t *testing.T) {
 	if qs == "" {
 		t.Skip("C04_Q not set")
 	}
-	labs := map[string]*lab{"S1": newLab("S1", sdl1), "S2": newLab("S2", sdl2)}
+	labs := newLabs()
 	for _, item := range strings.Split(qs, ";;") {
 		parts := strings.SplitN(strings.TrimSpace(item), "|", 3)
 		if len(parts) != 3 {
@@ -32,8 +32,8 @@ func TestSizes(t *testing.T) {
 	if os.Getenv("C04_SIZES") == "" {
 		t.Skip("C04_SIZES not set")
 	}
-	labs := map[string]*lab{"S1": newLab("S1", sdl1), "S2": newLab("S2", sdl2)}
-	for _, sn := range []string{"S1", "S2"} {
+	labs := newLabs()
+	for _, sn := range schemaNames {
 		l := labs[sn]
 		g := opgen.NewGen(l.gen)
 		for _, kind := range []string{"query", "mutation", "subscription"} {
